@@ -93,6 +93,7 @@ class FaultEnumScenario(WorldScenario):
         pre_status = w.m_status()
         pre_latest = dict(w.latest)
         live = {n for n in w.model.targets if w.observable(n) in ("submitted", "running")}
+        this_run = {a[0] for a in res.accepted}
         r2 = w.gwf(["run"] + patterns, "root")
         if r2.exception is not None or r2.exit_code != 0:
             w.pending_violation = None
@@ -101,15 +102,42 @@ class FaultEnumScenario(WorldScenario):
                    **facets)
             return
         dups = sorted(a[0] for a in r2.accepted if a[0] in live)
+        pending_dup = None
         if dups:
-            w.flag("C09", "duplicate_submission",
-                   f"after {fault_class}: {dups} submitted again although their jobs "
-                   f"{[pre_latest[d] for d in dups]} are still pending/running", **facets)
+            # jobs accepted by EARLIER invocations were saved before the interrupted run even started: losing
+            # them is a different (and worse) failure than losing the ids of the interrupted run itself
+            earlier = sorted(d for d in dups if d not in this_run)
+            pending_dup = (f"after {fault_class}: {dups} submitted again although their jobs "
+                           f"{[pre_latest[d] for d in dups]} are still pending/running"
+                           + (f" ({earlier} had been accepted and saved by an earlier invocation)" if earlier else ""),
+                           bool(earlier))
+        if pending_dup is None:
+            before = w.pending_violation
+            w.check_plan(r2, patterns, pre_status, pre_latest, props=("C09",))
+            if w.pending_violation is not None and before is None:
+                w.pending_violation.facets.update(facets)
+                return
+        # a further invocation: what the second run submitted must have been saved as well
+        live3 = {n: w.latest[n] for n in w.model.targets if w.observable(n) in ("submitted", "running")}
+        r3 = w.gwf(["run"] + patterns, "root")
+        if (r3.exception is not None or r3.exit_code != 0) and pending_dup is not None:
+            w.flag("C09", "duplicate_submission", pending_dup[0], lost_earlier_jobs=pending_dup[1], **facets)
             return
-        before = w.pending_violation
-        w.check_plan(r2, patterns, pre_status, pre_latest, props=("C09",))
-        if w.pending_violation is not None and before is None:
-            w.pending_violation.facets.update(facets)
+        if r3.exception is not None or r3.exit_code != 0:
+            w.pending_violation = None
+            w.flag("C09", "next_invocation_fails",
+                   f"after {fault_class}: third gwf run -> exit {r3.exit_code} {type(r3.exception).__name__}: {r3.exception}",
+                   **facets)
+            return
+        dups3 = sorted(a[0] for a in r3.accepted if a[0] in live3)
+        if not dups3 and pending_dup is not None:
+            w.flag("C09", "duplicate_submission", pending_dup[0], lost_earlier_jobs=pending_dup[1], **facets)
+            return
+        if dups3:
+            w.flag("C09", "duplicate_submission",
+                   f"after {fault_class}: the run after the next one submitted {dups3} again although their jobs "
+                   f"{[live3[d] for d in dups3]} are still pending/running: state is no longer saved", later_run=True,
+                   **facets)
 
     # ------------------------------------------------------------------ one world
     def _play(self, ops, trace, keep_events=False):
